@@ -213,7 +213,7 @@ def known_class(case, what, known):
     """a violation inside a class listed as `known` in KNOWN_FINDINGS.json -> (id, text) else None"""
     files = case["files"]
     blob = b"\n".join(files.values())
-    if "bank_window_end_overflow" in known and "panick" in what and re.search(rb"#outp\s+(0x[fF]{8,}|\d{19,})", blob):
+    if "bank_window_end_overflow" in known and "panick" in what and re.search(rb"#outp\s+(0x[fF_]{8,}|[\d_]{19,})", blob) and "output/mod.rs" in what:
         return known["bank_window_end_overflow"]
     return None
 
